@@ -72,7 +72,12 @@ pub fn render(doc: &Value, mt: &str, rng: &mut StdRng) -> Rendered {
       "typeofImport" => format!("{dot}type B{j} = typeof import({st});"),
       "declMod" => format!("declare module {st} {{ }}"),
       "dyn" => format!("await import({st});"),
-      "dynTpl" => format!("await import(`{s_real}`);"),
+      "dynTpl" => format!("await import(`{s_written}`);"),
+      "impDefer" => format!("import defer * as df{j} from {st};"),
+      "dynDefer" => format!("await import.defer({st});"),
+      "dynSource" => format!("await import.source({st});"),
+      "impSource" => format!("import source ws{j} from {st};"),
+      "reqTpl" => format!("require(`{s_written}`);"),
       "dynTplParts" => format!("await import(`./dir{j}/${{v{j}}}.ts`);"),
       "dynExpr" => format!("await import(v{j});"),
       "dynJson" => format!("await import({st}, {{ with: {{ type: \"json\" }} }});"),
@@ -93,7 +98,7 @@ pub fn render(doc: &Value, mt: &str, rng: &mut StdRng) -> Rendered {
     out.push_str(&line);
     out.push_str(if rng.gen_bool(0.3) { "\r\n" } else { "\n" });
     // the real (unescaped) texts; dynTpl has no escapes
-    spec.push(if id == "dynTpl" { s_real.clone() } else { s_real });
+    spec.push(s_real);
     types.push(t_real);
   }
   if doc["footer"] == "sourceMap" {
